@@ -350,7 +350,7 @@ def build_tables(spec):
     glyf, loca = glyf_loca([tuple(g.get('bbox', (0, 0, g['adv'], 700))) for g in gl], loca_long)
     attrs = [{int(k): v for k, v in (g.get('attrs') or {}).items()} or {1: 0} for g in list(gl) + list(extra)]
     glat, gloc = glat_gloc(attrs, spec.get('nattrs', 16), spec.get('glat_version', 1), spec.get('gloc_long', False),
-                           spec.get('gloc_attrids', False), spec.get('octaboxes'))
+                           spec.get('gloc_attrids', False), spec.get('octaboxes'), run_style=spec.get('glat_runs', 'max'), dense=spec.get('glat_dense', False))
     t = {'head': head(upem, loca_long), 'hhea': hhea(len(gl)), 'maxp': maxp(len(gl)), 'hmtx': hmtx([g['adv'] for g in gl]),
          'glyf': glyf, 'loca': loca,
          'cmap': build_cmap({int(k): v for k, v in spec['cmap'].items()}, spec.get('cmap12'),
